@@ -183,7 +183,7 @@ add("C13", "fault_enumeration", [
 
 add("C19", "exploration", [
     {"name": "c19-concurrent", "bin": "c19", "pkg": ZZ + "c19", "run": "^TestVerifC19Concurrent$",
-     "shards": {"quick": 12, "thorough": 16}, "checks": {"quick": 10, "thorough": 400},
+     "shards": {"quick": 12, "thorough": 16}, "checks": {"quick": 40, "thorough": 400},
      "timeout": {"quick": 900, "thorough": 3300}, "shrinktime": "90s"},
     {"name": "c19-race", "bin": "c19", "pkg": ZZ + "c19", "run": "^TestVerifC19Concurrent$", "race": True, "tier_only": "thorough",
      "shards": {"thorough": 8}, "checks": {"thorough": 40}, "timeout": {"thorough": 3300}, "shrinktime": "30s",
